@@ -38,7 +38,7 @@ ASSUMPTIONS = [
 REQUIRED_REACH = {"post.predict_submodel": 300, "regime.smoothed": 50, "regime.plain": 50, "regime.flat": 5,
                   "regime.equal_bp_at_Tmax": 3, "regime.equal_bp_at_Tmin": 3, "clause.between_flat": 100,
                   "clause.monotone": 300, "clause.exact_line": 100, "clause.asymptote": 30, "clause.loads": 300,
-                  "boundary.predict": 20, "regime.percent_k_sum_at_or_above_one": 1500}
+                  "boundary.predict": 20, "regime.percent_k_sum_at_or_above_one": 1500, "document.balance_points_in_reversed_order": 30}
 REQUIRED_REACH_THOROUGH = {"kernel.boundscheck_equal": 1, "kernel.interpreted_equal": 1}
 
 VIOL = []
@@ -322,6 +322,7 @@ def gen_cases(tier, seed):
     q = tier == "quick"
     cases = [dict(kind="vectors", n=25 if q else 50, batch=b) for b in range(32 if q else 400)]
     cases += [dict(kind="vectors", n=100 if q else 200, batch=10000 + b, fully_smoothed=True) for b in range(32 if q else 160)]
+    cases += [dict(kind="vectors", n=25 if q else 50, batch=20000 + b, reversed=True) for b in range(16 if q else 100)]
     if not q:
         cases.append(dict(kind="kernel-diff", n=300, batch=0, timeout=2400))
     return cases
@@ -346,7 +347,9 @@ def run_case(spec):
         tc = B.draw_tc(rng)
         if spec.get("fully_smoothed"):
             shape = "hdd_tidd_cdd_smooth"
-        coef = B.draw_coefficients(rng, shape, tc)
+        coef = B.draw_coefficients(rng, shape, tc, reversed_p=0.5 if spec.get("reversed") else 0.0)
+        if coef.get("hdd_bp") is not None and coef.get("cdd_bp") is not None and coef["hdd_bp"] > coef["cdd_bp"]:
+            I.reach("document.balance_points_in_reversed_order")
         if spec.get("fully_smoothed"):
             # dead band smoothed from both sides up to and beyond its width: percent-k sum at 1, one ulp around it, and well above 1
             # (the library rescales the pair; the shifted balance points then coincide up to rounding)
